@@ -322,9 +322,9 @@ class Lib:
                 return out
             raise PyExc('TypeError', 'list indices must be integers')
         if isinstance(base, dict):
-            k = self.interp.dict_key(idx)
-            if k not in base:
-                raise PyExc('KeyError', repr(k))
+            k = self.interp.find_key(base, idx)
+            if k is None:
+                raise PyExc('KeyError', repr(idx))
             return base[k]
         from . import text as TX
         if isinstance(base, TX.SymStr):
@@ -554,9 +554,17 @@ class Lib:
             raise EngineError('fancy store')
         out_idx = []
         ax = 0
+        if any(it is Ellipsis for it in idx):
+            if sum(1 for it in idx if it is Ellipsis) > 1:
+                raise PyExc('IndexError', "an index can only have a single ellipsis ('...')")
+            k = [j for j, it in enumerate(idx) if it is Ellipsis][0]
+            fill = len(base.shape) - sum(1 for it in idx if it is not Ellipsis and it is not None)
+            if fill < 0:
+                raise PyExc('IndexError', 'too many indices for array')
+            idx = tuple(idx[:k]) + (slice(None, None, None),) * fill + tuple(idx[k + 1:])
         for it in idx:
             if it is None or it is Ellipsis:
-                raise EngineError('newaxis/ellipsis in store')
+                raise EngineError('newaxis in store')
             if isinstance(it, slice):
                 out_idx.append(slice(N(it.start), N(it.stop), N(it.step)))
             else:
@@ -622,9 +630,15 @@ class Lib:
             if name == 'strip':
                 def strip_(chars=None):
                     if chars is not None:
-                        raise EngineError('str.strip(chars) on a symbolic string')
+                        return TX.strip_chars(obj, chars)
                     return TX.strip(obj)
                 return strip_
+            if name in ('rstrip', 'lstrip'):
+                def rstrip_(chars=None):
+                    if chars is None:
+                        raise EngineError('str.%s() without a character set on a symbolic string' % name)
+                    return TX.strip_chars(obj, chars, left=name == 'lstrip', right=name == 'rstrip')
+                return rstrip_
             raise EngineError('str.%s on a symbolic string' % name)
         if isinstance(obj, TX.FileObj):
             return getattr(obj, name)
@@ -638,11 +652,11 @@ class Lib:
         if is_arr(obj):
             return self.arr_attr(obj, name)
         if isinstance(obj, (list, dict, str, tuple)):
-            if isinstance(obj, str) and name in ('split', 'join', 'splitlines', 'strip', 'format', 'replace', 'startswith', 'endswith', 'lower', 'upper'):
+            if isinstance(obj, str) and name in ('split', 'join', 'splitlines', 'strip', 'rstrip', 'lstrip', 'format', 'replace', 'startswith', 'endswith', 'lower', 'upper'):
                 return _str_method(obj, name)
             if hasattr(obj, name):
-                if isinstance(obj, dict) and name == 'get':
-                    return lambda k, d=None: obj.get(self.interp.dict_key(k), d)
+                if isinstance(obj, dict):
+                    return self.dict_method(obj, name)
                 return getattr(obj, name)
             raise PyExc('AttributeError', '%s object has no attribute %s' % (type(obj).__name__, name))
         if isinstance(obj, ExcVal):
@@ -667,6 +681,77 @@ class Lib:
         if isinstance(obj, _FileVal):
             return getattr(obj, name)
         raise PyExc('AttributeError', '%r has no attribute %s' % (obj, name))
+
+    def dict_method(self, obj, name):
+        itp = self.interp
+        hidden = id(obj) in itp.module_objs
+
+        def touch():
+            if hidden:
+                itp.module_state_written = True
+        if name == 'get':
+            def get_(k, d=None):
+                f = itp.find_key(obj, k)
+                return obj[f] if f is not None else d
+            return get_
+        if name == 'pop':
+            def pop_(k, *d):
+                touch()
+                f = itp.find_key(obj, k)
+                if f is not None:
+                    return obj.pop(f)
+                if d:
+                    return d[0]
+                raise PyExc('KeyError', repr(k))
+            return pop_
+        if name == 'setdefault':
+            def setdefault_(k, d=None):
+                f = itp.find_key(obj, k)
+                if f is not None:
+                    return obj[f]
+                touch()
+                obj[itp.new_key(k)] = d
+                return d
+            return setdefault_
+        if name == 'update':
+            def update_(other=(), **kw):
+                touch()
+                items = list(other.items()) if isinstance(other, dict) else list(other)
+                for k, v in items + list(kw.items()):
+                    kk = k.value if hasattr(k, 'value') and type(k).__name__ == 'SymKey' else k
+                    itp.store(obj, kk, v)
+            return update_
+        if name in ('clear', 'popitem'):
+            def mut_(*a):
+                touch()
+                return getattr(obj, name)(*a)
+            return mut_
+        if name in ('keys', 'values', 'items', 'copy'):
+            if name == 'keys' and any(type(k).__name__ == 'SymKey' for k in obj):
+                return lambda: [k.value if type(k).__name__ == 'SymKey' else k for k in obj]
+            if name == 'items' and any(type(k).__name__ == 'SymKey' for k in obj):
+                return lambda: [((k.value if type(k).__name__ == 'SymKey' else k), v) for k, v in obj.items()]
+            return getattr(obj, name)
+        raise EngineError('dict.%s not modelled' % name)
+
+    def bytes_eq(self, a, b):
+        """ndarray.tobytes() equality: same dtype, same length, same elements."""
+        x, y = a.arr, b.arr
+        if x.dtype != y.dtype or len(x.shape) != len(y.shape):
+            return False
+        if isinstance(x, BArr) and isinstance(y, BArr):
+            if x.a.size != y.a.size:
+                return False
+            return T.sand(*[T.seq(p, q) for p, q in zip(x.a.reshape(-1).tolist(), y.a.reshape(-1).tolist())]) if x.a.size else True
+        if len(x.shape) != 1:
+            raise EngineError('tobytes equality of nd closure arrays')
+        import z3
+        from .np_util import forall
+        rx, ry = A.reader(x), A.reader(y)
+        n, m = x.shape[0], y.shape[0]
+        i = z3.Int('tb_i')
+        body = z3.Implies(z3.And(0 <= i, i < T.to_int_term(n)), T.to_bool_term(T.seq(rx(i), ry(i))))
+        return T.sand(T.seq(n, m), forall([i], body))
 
     def arr_attr(self, arr, name):
         t = self.table
@@ -709,6 +794,9 @@ class Lib:
             return lambda v: self.setitem(arr, (slice(None),) * len(arr.shape), v)
         if name == 'tolist':
             return lambda: t['builtins.list'](arr) if len(arr.shape) == 1 else _unsupported('tolist on nd')
+        if name == 'tobytes':
+            from .interp import BytesVal
+            return lambda *a, **k: BytesVal(arr.snapshot() if isinstance(arr, CArr) else arr.copy())
         raise PyExc('AttributeError', 'ndarray has no attribute %s (or it is not modelled)' % name) if not hasattr(np.ndarray, name) \
             else EngineError('ndarray.%s not modelled' % name)
 
